@@ -22,6 +22,18 @@ LockConfs == WithGC({
                !.pre = {<<"M3", "t1">>}, !.plant = {"tmp-plant"}],
   [Base EXCEPT !.cp = Two(CC("M3", "t1", {}, FALSE, "p"), CC("M4", "t1", {}, FALSE, "p"))] })
 
+\* the lock protocol with three blobs per image (one shared), all interleavings, gc on
+LockConfsBig == {
+  [Base EXCEPT !.cp = Two(CC("M1", "t1", {}, FALSE, "p"), CC("M2", "t2", {}, FALSE, "p"))],
+  [Base EXCEPT !.cp = Two(CC("M1", "t1", {}, FALSE, "p"), CC("M2", "t1", {}, FALSE, "p")),
+               !.pre = {<<"M1", "t1">>}] }
+
+\* a copy that writes nothing (its image is already in the layout) next to a copy that writes
+NoopConfs == {
+  [Base EXCEPT !.cp = Two(CC("M3", "t1", {}, FALSE, "p"), CC(r, "t2", {}, FALSE, "p")),
+               !.pre = {<<"M3", "t1">>}, !.plant = pl, !.tdels = {"t1", "t2"}]
+    : r \in {"M4", "M1", "S1"}, pl \in {{}, {"tmp-plant", "tmp-plant-man"}} }
+
 \* graph shapes: nested index, schema1, sparse copies, referrers, pushes and deletes
 ShapeConfs == WithGC({
   [Base EXCEPT !.cp = Two(CC("N1", "t1", {}, FALSE, "p"), CC("S1", "t2", {}, FALSE, "p")),
@@ -38,5 +50,6 @@ ShapeConfs == WithGC({
 AliasConfs == {
   [Base EXCEPT !.cp = Two(CC("M3", "t1", {}, FALSE, "p"), CC("M4", "t2", {}, FALSE, "p/")),
                !.ckeys = {"p", "p/"}, !.faults = FALSE] }
+ShapeConfsOn == {x \in ShapeConfs : x.gc}
 GenConfs == LockConfs \cup ShapeConfs
 =============================================================================
